@@ -148,7 +148,8 @@ def addNodeTail (a1 : AS) (newId : NodeRef) (r : AddNodeReq) (rt : Nat) : Outcom
   else if decide (newId.ns > a1.namespaces) then (.panic .assertNamespace, a1)
   else
     let a2 : AS := { a1 with nodes := a1.nodes ++ [(⟨newId, r.cls, r.bnNs, r.bn⟩ : Node)] }
-    let a3 := a2.addRef newId r.parent rt
+    -- the parent references the new node (`ReferenceDirection::Inverse` seen from the new node)
+    let a3 := a2.addRef r.parent newId rt
     let a4 := if r.cls = 1 ∨ r.cls = 2 then a3.addRef newId r.typeDef 40 else a3
     (.status .Good, a4)
 
